@@ -342,7 +342,7 @@ sqf::runtime::runtime::result sqf::runtime::runtime::execute(sqf::runtime::runti
             switch (res)
             {
             case sqf::runtime::runtime::result::empty:
-                m_state = state::empty;
+                m_state = drop_finished_active_context();
                 break;
             case sqf::runtime::runtime::result::ok:
                 m_state = state::halted;
@@ -524,7 +524,7 @@ sqf::runtime::runtime::result sqf::runtime::runtime::execute(sqf::runtime::runti
             switch (res)
             {
             case sqf::runtime::runtime::result::empty:
-                m_state = state::empty;
+                m_state = drop_finished_active_context();
                 break;
             case sqf::runtime::runtime::result::ok:
                 m_state = state::halted;
@@ -599,7 +599,7 @@ sqf::runtime::runtime::result sqf::runtime::runtime::execute(sqf::runtime::runti
             switch (res)
             {
             case sqf::runtime::runtime::result::empty:
-                m_state = state::empty;
+                m_state = drop_finished_active_context();
                 break;
             case sqf::runtime::runtime::result::ok:
                 m_state = state::halted;
